@@ -705,13 +705,13 @@ package chain
 //@   assigns heap:DBStore, ghost:sheight
 //@   ensures db.db == old(db.db) && db.n == old(db.n)
 //@   ensures sheight == height
-//@ func (*DBStore).applyState props C03,C01
+//@ func (*DBStore).applyState props C03,C01,C02
 //@   assigns heap:DBStore, ghost:best, ghost:sheight
 //@   frame assumed
 //@   requires db != nil
 //@   ensures db.db == old(db.db) && db.n == old(db.n)
 //@   ensures [index] best == old(best)[next.Index.Height := next.Index.ID] && sheight == next.Index.Height
-//@ func (*DBStore).revertState props C03,C01
+//@ func (*DBStore).revertState props C03,C01,C02
 //@   assigns heap:DBStore, ghost:best, ghost:sheight
 //@   frame assumed
 //@   requires db != nil && prev.Index.Height < 18446744073709551615
